@@ -80,7 +80,7 @@ def pick(h, q):
 
 def gen(tier, rng):
     out = []
-    quick = tier == "quick"
+    quick = tier in ("quick", "search")
     nk = 3 if quick else 4          # keys
     ml = 5 if quick else 6          # max length
     ms = 3 if quick else 4          # max needle / second range length
@@ -177,50 +177,62 @@ def gen(tier, rng):
                     lt = cmp_(c)
                     out.append(f"clamp {0 if lt(b + 1, a + 1) else 1} {c} {v + 1} {a + 1} {b + 1}")
 
-    # ---------------- two ranges: searches and comparisons
+    # ---------------- two ranges: searches (every haystack x every needle)
     for l in S1m:
         for s in S2:
             cnt += 1
             for b in (0, 2):
-                for f in flavours(2, cnt):
+                for f in [0] + [g for g in (1, 2) if pick(cnt + g, 2 * q)]:
                     out.append(f"search {f} {b} {L(l)} {L(s)}")
-                    out.append(f"search_ds {f} {b} {L(l)} {L(s)}")
                     out.append(f"find_end {f} {b} {L(l)} {L(s)}")
-                for f in flavours(3, cnt):
+                    if b == 0 or f == 0:
+                        out.append(f"search_ds {f} {b} {L(l)} {L(s)}")
+                for f in [0] + [g for g in (1, 2, 3) if pick(cnt + g, 2 * q)]:
                     out.append(f"find_first_of {f} {b} {L(l)} {L(s)}")
-                    out.append(f"mismatch4 {f} {b} {L(l)} {L(s)}")
-                    out.append(f"mismatch4 {f} {b} {L(s)} {L(l)}")
-                for f in range(0, 6):
-                    out.append(f"equal4 {f} {b} {L(l)} {L(s)}")
-                    out.append(f"equal4 {f} {b} {L(s)} {L(l)}")
-                if len(s) <= len(l):
-                    for f in flavours(3, cnt):
-                        out.append(f"mismatch3 {f} {b} {L(s)} {L(l)}")
-                        out.append(f"equal3 {f} {b} {L(s)} {L(l)}")
-            for c in (0, 1):
-                for f in flavours(3, cnt):
-                    out.append(f"lexcmp {f} {c} {L(l)} {L(s)}")
-                    out.append(f"lexcmp {f} {c} {L(s)} {L(l)}")
-            for f in (0, 1, 2, 4, 5):
-                out.append(f"is_permutation4 {f} {L(l)} {L(s)}")
-                out.append(f"is_permutation4 {f} {L(s)} {L(l)}")
-            if len(s) <= len(l):
-                for f in flavours(2, cnt):
-                    out.append(f"is_permutation3 {f} {L(s)} {L(l)}")
-    # equal-length pairs (the interesting region of equal / is_permutation / lexcmp / mismatch)
-    E = list(seqs(alpha, 4 if quick else 5))
+    # ---------------- two ranges: comparisons (ordered pairs, lengths <= ml-1 and <= ms)
+    SB = list(seqs(alpha, ml - 1))
+    pairs = []
+    for l in SB:
+        for s in S2:
+            pairs.append((l, s))
+            if len(l) > ms:
+                pairs.append((s, l))
+    for (l, s) in pairs:
+        cnt += 1
+        for f in range(0, 6):
+            out.append(f"equal4 {f} 0 {L(l)} {L(s)}")
+        for f in (0, 1):
+            out.append(f"equal4 {f} 2 {L(l)} {L(s)}")
+        for f in (0, 1, 2, 4, 5):
+            out.append(f"is_permutation4 {f} {L(l)} {L(s)}")
+        for b in (0, 2):
+            for f in flavours(3, cnt):
+                out.append(f"mismatch4 {f} {b} {L(l)} {L(s)}")
+        for c in (0, 1):
+            for f in flavours(3, cnt + c):
+                out.append(f"lexcmp {f} {c} {L(l)} {L(s)}")
+        if len(l) <= len(s):
+            for f in flavours(3, cnt):
+                out.append(f"mismatch3 {f} 0 {L(l)} {L(s)}")
+                out.append(f"equal3 {f} 0 {L(l)} {L(s)}")
+            out.append(f"mismatch3 0 2 {L(l)} {L(s)}")
+            out.append(f"equal3 0 2 {L(l)} {L(s)}")
+            for f in flavours(2, cnt):
+                out.append(f"is_permutation3 {f} {L(l)} {L(s)}")
+    # equal-length pairs beyond the needle length (the interesting region of equal / is_permutation)
+    E = list(seqs(alpha, ml - 1))
     for l in E:
         for s in E:
             if len(l) != len(s) or len(l) <= ms:
                 continue
             cnt += 1
-            for f in (0, 1, 2, 4, 5):
+            for f in (0, 1, 5):
                 out.append(f"is_permutation4 {f} {L(l)} {L(s)}")
             for f in flavours(2, cnt):
                 out.append(f"is_permutation3 {f} {L(l)} {L(s)}")
             for f in range(0, 6):
                 out.append(f"equal4 {f} 0 {L(l)} {L(s)}")
-            for f in flavours(3, cnt):
+            for f in [0] + [g for g in (1, 2, 3) if pick(cnt + g, 2 * q)]:
                 out.append(f"equal3 {f} 0 {L(l)} {L(s)}")
                 out.append(f"mismatch3 {f} 0 {L(l)} {L(s)}")
                 out.append(f"mismatch4 {f} 0 {L(l)} {L(s)}")
